@@ -11,7 +11,7 @@
    proofs are in Proofs/C05.v.  Constants and jump-table rows come from
    Generated/C05Params.v (regenerated from /repo at every check). *)
 From Coq Require Import List NArith Bool String.
-From GQ Require Import Generated.C05Params.
+From GQ Require Import Generated.C05Params Lib.C05_Slice.
 Import ListNotations.
 Local Open Scope N_scope.
 
@@ -745,9 +745,114 @@ Definition ucase_ok (k : ucase) : bool :=
       etxs_eqb (skipn (N.to_nat (u_prefill k)) etxs) (ou_etxs k)
   end.
 
-Inductive case := KE (k : ecase) | KU (k : ucase).
-Definition case_id (x : case) : N := match x with KE k => k_id k | KU k => u_id k end.
-Definition case_ok (x : case) : bool := match x with KE k => ecase_ok k | KU k => ucase_ok k end.
+
+(* ---------- hand-over of the per-transaction cache; the block's outbound list ----------
+   core/state_transition.go:TransitionDb   etxs := make(len(ETXCache)); copy(etxs, ETXCache); ETXCache = make(.., 0)
+                                            ... ExecutionResult{Etxs: etxs}
+   core/state_processor.go:applyTransaction evm.Reset (does not touch the cache); result := ApplyMessage;
+                                            if !result.Failed() { receipt.OutboundEtxs = result.Etxs }
+   core/state_processor.go:Process          ONE vmenv per block; per transaction: applyTransaction;
+                                            if receipt.Status == Successful { emittedEtxs = append(emittedEtxs, receipt.OutboundEtxs...) }
+   Value level (lists); the slice level -- where the copy matters -- is [hprocess] below.
+   A transaction is abstracted to (its top-level call succeeded, what its execution appended to the cache). *)
+Definition btx := (bool * list etx)%type.
+
+(* (ExecutionResult.Etxs, EVM.ETXCache afterwards) *)
+Definition transition_db (cache : list etx) (t : btx) : list etx * list etx := (cache ++ snd t, []).
+(* (receipt.OutboundEtxs, EVM.ETXCache afterwards) *)
+Definition apply_transaction (cache : list etx) (t : btx) : list etx * list etx :=
+  let (etxs, cache') := transition_db cache t in ((if fst t then etxs else []), cache').
+(* (the receipts' outbound sets, emittedEtxs) of a block processed with ONE cache *)
+Fixpoint process (cache : list etx) (txs : list btx) : list (list etx) * list etx :=
+  match txs with
+  | [] => ([], [])
+  | t :: rest =>
+      let (rc, cache') := apply_transaction cache t in
+      let (rs, bl) := process cache' rest in
+      (rc :: rs, (if fst t then rc else []) ++ bl)
+  end.
+(* the worker: a new EVM (empty cache) for every transaction (core.ApplyTransaction) *)
+Definition process_fresh (txs : list btx) : list (list etx) * list etx :=
+  let rs := map (fun t : btx => fst (apply_transaction [] t)) txs in
+  (rs, List.concat (map (fun t : btx => if fst t then fst (apply_transaction [] t) else []) txs)).
+(* what a transaction sent: the ETXs its execution recorded, if it succeeded *)
+Definition tx_sent (t : btx) : list etx := if fst t then snd t else [].
+
+(* the same three functions over Go slices (Lib/C05_Slice.v): the cache is a slice into a backing array,
+   opETX / opConvert / CreateETX append to it, revertToSnapshot re-slices it (ETXCache[:n]).
+   [copying = true] is TransitionDb as it is (make + copy, then a new empty slice); [copying = false] is
+   the variant without the copy (etxs := ETXCache; ETXCache = ETXCache[:0]) -- kept to show that the copy
+   is what the retention theorem rests on (hprocess_without_copy_refuted). *)
+Definition run_cops (l : list etx) (ops : list (cop etx)) : list etx := fold_left cop_list ops l.
+Definition hbtx := (bool * list (cop etx))%type.
+Definition htransition_db (grow : nat -> nat) (copying : bool) (h : heap etx) (cache : slice) (t : hbtx) : heap etx * slice * slice :=
+  let (h1, c1) := run_cops_h dummy_etx grow h cache (snd t) in
+  if copying then
+    let (h2, etxs) := sl_copy h1 c1 in
+    let (h3, c3) := sl_make h2 in (h3, etxs, c3)
+  else (h1, c1, sl_reslice c1 0).
+Fixpoint hprocess (grow : nat -> nat) (copying : bool) (h : heap etx) (cache : slice) (txs : list hbtx)
+  : heap etx * list (option slice) * list etx :=
+  match txs with
+  | [] => (h, [], [])
+  | t :: rest =>
+      match htransition_db grow copying h cache t with
+      | (h1, etxs, cache') =>
+          (* the pointers are copied into emittedEtxs before the next transaction runs *)
+          let now := if fst t then sl_read h1 etxs else [] in
+          match hprocess grow copying h1 cache' rest with
+          | (hf, rs, bl) => (hf, (if fst t then Some etxs else None) :: rs, now ++ bl)
+          end
+      end
+  end.
+(* a receipt's outbound set as it reads in a given heap (None: failed transaction, nil slice) *)
+Definition read_receipt (h : heap etx) (r : option slice) : list etx :=
+  match r with Some s => sl_read h s | None => [] end.
+(* the value-level abstraction of a slice-level transaction, started on an empty cache *)
+Definition abs_tx (t : hbtx) : btx := (fst t, run_cops [] (snd t)).
+
+(* a block of model transactions: the top-level message call of each (gas purchase, intrinsic gas, nonce
+   and refund of TransitionDb are not modelled), run on the world the previous one left, cache reset *)
+Record mtx := mkMtx { m_from : N; m_to : N; m_gas : N; m_value : N }.
+Definition mtx_call (fuel : nat) (c : ctx) (t : mtx) (w : world) : cres :=
+  call fuel c (FK CkCall) false 0 (m_from t) (m_to t) (m_gas t) (m_value t) w.
+Fixpoint process_calls (fuel : nat) (c : ctx) (txs : list mtx) (w : world) : list (list etx) * list etx :=
+  match txs with
+  | [] => ([], [])
+  | t :: rest =>
+      let r := mtx_call fuel c t w in
+      let rc := if c_err r =? 0 then w_etxs (c_world r) else [] in
+      let (rs, bl) := process_calls fuel c rest (mkW (w_bal (c_world r)) []) in
+      (rc :: rs, rc ++ bl)
+  end.
+(* specification side: what the successful operations of each transaction of the block recorded *)
+Fixpoint block_sent (fuel : nat) (c : ctx) (txs : list mtx) (w : world) : list (list etx) :=
+  match txs with
+  | [] => []
+  | t :: rest =>
+      let r := mtx_call fuel c t w in
+      (if c_err r =? 0 then emitted_all (c_tr r) else []) :: block_sent fuel c rest (mkW (w_bal (c_world r)) [])
+  end.
+
+(* a case of the third family: per transaction (status, cache when its top-level call returned); observed after
+   the LAST transaction of the block, processed with one EVM: every receipt's OutboundEtxs, the block's list *)
+Record bcase := mkBCase {
+  b_id : N; b_txs : list btx; ob_receipts : list (list etx); ob_block : list etx
+}.
+Fixpoint etxss_eqb (x y : list (list etx)) : bool :=
+  match x, y with
+  | [], [] => true
+  | a :: x', b :: y' => etxs_eqb a b && etxss_eqb x' y'
+  | _, _ => false
+  end.
+Definition bcase_ok (k : bcase) : bool :=
+  let (rs, bl) := process [] (b_txs k) in
+  etxss_eqb rs (ob_receipts k) && etxs_eqb bl (ob_block k) &&
+  let (rs', bl') := process_fresh (b_txs k) in etxss_eqb rs' (ob_receipts k) && etxs_eqb bl' (ob_block k).
+
+Inductive case := KE (k : ecase) | KU (k : ucase) | KB (k : bcase).
+Definition case_id (x : case) : N := match x with KE k => k_id k | KU k => u_id k | KB k => b_id k end.
+Definition case_ok (x : case) : bool := match x with KE k => ecase_ok k | KU k => ucase_ok k | KB k => bcase_ok k end.
 
 Definition mismatches (cs : list case) : list N :=
   map case_id (filter (fun k => negb (case_ok k)) cs).
